@@ -4,6 +4,7 @@
 
 import time
 import sys
+import math
 from xml.etree import ElementTree
 import binascii
 import datetime
@@ -39,6 +40,28 @@ def indent_xml(element, indent, level=0):
     else:
         if level and (not element.tail or not element.tail.strip()):
             element.tail = i
+
+
+def format_real(data):
+    """Format given finite float as '<mantissa>E<exponent>' with the
+    shortest decimal mantissa that converts back to the same float.
+
+    """
+
+    # repr() gives the shortest string that round-trips. Only move
+    # the decimal point in the text; dividing the float by ten would
+    # round.
+    mantissa, _, exponent = repr(data).partition('e')
+    exponent = int(exponent) if exponent else 0
+    sign = '-' if mantissa.startswith('-') else ''
+    integer, _, fraction = mantissa.lstrip('-').partition('.')
+
+    if len(integer) > 1:
+        exponent += len(integer) - 1
+        fraction = (integer[1:] + fraction).rstrip('0')
+        integer = integer[0]
+
+    return '{}{}.{}E{}'.format(sign, integer, fraction or '0', exponent)
 
 
 class Type(BaseType):
@@ -217,23 +240,39 @@ class Integer(Type):
 
 class Real(Type):
 
+    SPECIAL_VALUES = {
+        'PLUS-INFINITY': float('inf'),
+        'MINUS-INFINITY': float('-inf'),
+        'NOT-A-NUMBER': float('nan')
+    }
+
     def __init__(self, name):
         super(Real, self).__init__(name, 'REAL')
 
     def encode(self, data):
         data = float(data)
-        exponent = 0
-
-        while abs(data) >= 10:
-            data /= 10
-            exponent += 1
-
         element = ElementTree.Element(self.name)
-        element.text = '{}E{}'.format(data, exponent)
+
+        if math.isnan(data):
+            ElementTree.SubElement(element, 'NOT-A-NUMBER')
+        elif math.isinf(data):
+            ElementTree.SubElement(
+                element,
+                'PLUS-INFINITY' if data > 0 else 'MINUS-INFINITY')
+        else:
+            element.text = format_real(data)
 
         return element
 
     def decode(self, element):
+        if len(element) > 0:
+            try:
+                return self.SPECIAL_VALUES[element[0].tag]
+            except KeyError:
+                raise DecodeError(
+                    "Expected a REAL value, but got '{}'.".format(
+                        element[0].tag))
+
         return float(element.text)
 
 
